@@ -489,7 +489,7 @@ class C10(Spec):
     model_targets = ["theories/Model/BtreeRun.vo", "theories/Proofs/BtreeProofs.vo", "theories/Model/SlottedRun.vo", "theories/Proofs/SlottedProofs.vo"]
     prop_vo = "theories/Props/C10.vo"
     prop_module = "Props.C10"
-    theorems = ["C10_checker_sound", "C10_map_refinement", "C10_page_refines_list", "C10_page_insert_complete"]
+    theorems = ["C10_checker_sound", "C10_map_refinement", "C10_page_refines_list", "C10_page_insert_complete", "C10_page_defragment_compacts"]
     rule = ("one tree per case through the facade: key types BIGUINT, BIGINT (negative values), TEXT (prefixes, empty, non-ASCII, "
             "different lengths) and (BIGINT, TEXT); page 4/8/16 KiB, cache 64-2000, minimum keys 3/4/8, siblings 1-3; 8-200 keys "
             "(7000 in two cases per twenty: small cells give height 3, cells just under a twentieth of a 4 KiB page give height 4) inserted in random / ascending / descending / zigzag order, then "
